@@ -35,11 +35,12 @@ RULES = {
     "C02-f": "vocabulary callables are driven by Run._call_run or stream themselves; census of all run methods",
 }
 
-# (module, qualname, names holding the flow, look-ahead allowed)
+# (module, qualname, parameters holding the flow, look-ahead allowed); an empty list = the function has no flow
+# parameter: the locals holding a flow it produces itself are derived from its code (produced_flow_names)
 TABLE = [
     ("lena.core.functions", "flow_to_iter", ["flow"], 0),
     ("lena.core.sequence", "Sequence.run", ["flow"], 0),
-    ("lena.core.source", "Source.__call__", ["flow"], 0),
+    ("lena.core.source", "Source.__call__", [], 0),
     ("lena.core.adapters", "Run._call_run", ["flow"], 0),
     ("lena.flow.filter", "Filter.run", ["flow"], 0),
     ("lena.flow.iterators", "Slice.run", ["flow"], 0),
@@ -48,8 +49,8 @@ TABLE = [
     ("lena.core.split", "Split._empty_run", ["flow"], 0),
     ("lena.flow.cache", "Cache.run", ["flow"], 0),
     ("lena.flow.cache", "Cache._dump_flow_and_yield", ["flow"], 0),
-    ("lena.core.fill_compute_seq", "FillComputeSeq.compute", ["flow", "results"], 0),
-    ("lena.core.fill_request_seq", "FillRequestSeq.request", ["vals", "results"], 0),
+    ("lena.core.fill_compute_seq", "FillComputeSeq.compute", [], 0),
+    ("lena.core.fill_request_seq", "FillRequestSeq.request", [], 0),
 ]
 LOOKAHEAD_DOC = {"Count.run": "Count yields the previous value so that it can attach the total to the last one (documented)"}
 CONSTRUCTORS = [
@@ -89,13 +90,52 @@ def consumed_kinds():
     return ("pull-loop", "pull-one", "eager", "bounded", "drain")
 
 
-def flow_names_of(fn, names):
+def produced_flow_names(fn):
+    """Locals of *fn* that hold a flow the function produces itself and hands on: the non-parameter
+    names that reach a returned expression through `x = <expr>` assignments and that are bound from a
+    call (`x = f(...)`, `x = obj.run(y)`) or are aliases of such names.  A local that only copies an
+    attribute (`first = self._first`) is a stored object, not a flow produced here.  Independent of
+    what the locals are called."""
+    params = set(A.func_params(fn))
+    defs = {}
+    for st in A.walk_local(fn, include_self=False):
+        if isinstance(st, ast.Assign) and len(st.targets) == 1 and isinstance(st.targets[0], ast.Name) \
+                and st.targets[0].id not in params:
+            defs.setdefault(st.targets[0].id, []).append(st.value)
+    reach = set()
+    work = []
+    for r in A.walk_local(fn, include_self=False):
+        if isinstance(r, ast.Return) and r.value is not None:
+            work.extend(sorted(A.names_loaded(r.value) & set(defs)))
+    while work:
+        nm = work.pop()
+        if nm in reach:
+            continue
+        reach.add(nm)
+        for v in defs[nm]:
+            work.extend(sorted(A.names_loaded(v) & set(defs)))
+    produced = set()
+    changed = True
+    while changed:
+        changed = False
+        for nm in reach - produced:
+            if any(isinstance(v, ast.Call) or (isinstance(v, ast.Name) and v.id in produced) for v in defs[nm]):
+                produced.add(nm)
+                changed = True
+    return sorted(produced)
+
+
+def flow_names_of(ctx, fn, qual, names):
     params = A.func_params(fn)
     out = [n for n in names if n in params]
     if out:
         return out
     # locals holding a flow produced inside the function (Source.__call__, compute/request)
-    return list(names)
+    out = produced_flow_names(fn)
+    if not out:
+        ctx.unknown("C02-a", fn, "%s: no parameter of the table (%s) and no local bound from a call reaches a return: the "
+                    "analyser does not know which names hold the flow" % (qual, ", ".join(names) or "-"))
+    return out
 
 
 def check_nongen(ctx, fa, fn, qual, names, rule="C02-a"):
@@ -300,9 +340,9 @@ def check_table(ctx, fa):
         n += 1
         analysed.add(fn)
         if A.is_generator(fn):
-            check_stream(ctx, fa, fn, qual, flow_names_of(fn, names), lookahead)
+            check_stream(ctx, fa, fn, qual, flow_names_of(ctx, fn, qual, names), lookahead)
         else:
-            uses = check_nongen(ctx, fa, fn, qual, flow_names_of(fn, names))
+            uses = check_nongen(ctx, fa, fn, qual, flow_names_of(ctx, fn, qual, names))
             # generator methods it hands the flow to are streaming functions of the table too
             for u in uses:
                 if u.kind == "gen-call":
@@ -411,15 +451,66 @@ def check_split(ctx, fa):
         "its sources one after the other")
 
 
-NEG_BOUNDS = ("-start", "-stop", "-self._start", "-self._stop")
+CTOR_ATTRS = {"_start": "start", "_stop": "stop", "_step": "step"}
 
 
-def resolve_bound(fn, expr, seen=()):
-    """Normalised source texts a maxlen expression may stand for, following local
-    single assignments and parameters of nested helpers to their call sites."""
-    s = A.src(expr)
-    if s in NEG_BOUNDS:
-        return {s}
+def ctor_locals(fn):
+    """{local name: 'start' | 'stop' | 'step'} for the locals of *fn* that are bound exactly once, by a
+    top-level statement of its body, from self._start / self._stop / self._step (singly or by a tuple
+    assignment): whatever the code calls them, they are the constructor's values."""
+    cand = {}
+    for st in A.body_wo_doc(fn):
+        if not isinstance(st, ast.Assign) or len(st.targets) != 1:
+            continue
+        t, v = st.targets[0], st.value
+        if isinstance(t, (ast.Tuple, ast.List)) and isinstance(v, (ast.Tuple, ast.List)) and len(t.elts) == len(v.elts) \
+                and not any(isinstance(e, ast.Starred) for e in list(t.elts) + list(v.elts)):
+            pairs = list(zip(t.elts, v.elts))
+        else:
+            pairs = [(t, v)]
+        for tt, vv in pairs:
+            if isinstance(tt, ast.Name) and A.is_self_attr(vv) and vv.attr in CTOR_ATTRS:
+                cand[tt.id] = CTOR_ATTRS[vv.attr]
+    out = {}
+    rebound = {nm for n in ast.walk(fn) if isinstance(n, (ast.Nonlocal, ast.Global)) for nm in n.names}
+    for name, what in cand.items():
+        stores = [n for n in A.walk_local(fn, include_self=False) if isinstance(n, ast.Name) and n.id == name
+                  and isinstance(n.ctx, (ast.Store, ast.Del))]
+        if len(stores) == 1 and name not in A.func_params(fn) and name not in rebound:
+            out[name] = what
+    return out
+
+
+def neg_bound(fn, expr, ctor):
+    """'-start' / '-stop' / '-self._start' / '-self._stop' if *expr* is the negation of a constructor
+    value (the attribute itself or a local of *fn* that ctor_locals identified), else None."""
+    if not (isinstance(expr, ast.UnaryOp) and isinstance(expr.op, ast.USub)):
+        return None
+    op = expr.operand
+    if A.is_self_attr(op) and op.attr in ("_start", "_stop"):
+        return "-self." + op.attr
+    if isinstance(op, ast.Name) and ctor.get(op.id) in ("start", "stop"):
+        # the name must be the local of fn, not a parameter/local of a nested helper that shadows it
+        sc = A.enclosing_func(op)
+        while sc is not None and sc is not fn:
+            if op.id in A.func_params(sc) or any(isinstance(n, ast.Name) and n.id == op.id and isinstance(n.ctx, ast.Store)
+                                                  for n in A.walk_local(sc, include_self=False)):
+                return None
+            sc = A.enclosing_func(sc)
+        if sc is fn:
+            return "-" + ctor[op.id]
+    return None
+
+
+def resolve_bound(fn, expr, seen=(), ctor=None):
+    """Normalised texts a maxlen expression may stand for (-start / -stop, in terms of the constructor's
+    values, or '?<source>' if it is something else), following local single assignments and
+    parameters of nested helpers to their call sites."""
+    ctor = ctor_locals(fn) if ctor is None else ctor
+    s = A.src_with(expr, ctor)
+    nb = neg_bound(fn, expr, ctor)
+    if nb is not None:
+        return {nb}
     if isinstance(expr, ast.Name) and expr.id not in seen:
         holder = A.enclosing_func(expr)
         if holder is not None and expr.id in A.func_params(holder) and holder is not fn:
@@ -435,7 +526,7 @@ def resolve_bound(fn, expr, seen=()):
                 if a is None:
                     out.add("?" + s)
                 else:
-                    out |= resolve_bound(fn, a, seen + (expr.id,))
+                    out |= resolve_bound(fn, a, seen + (expr.id,), ctor)
             return out
         vals = [A.parent(n).value for n in ast.walk(fn) if isinstance(n, ast.Name) and n.id == expr.id and isinstance(n.ctx, ast.Store)
                 and isinstance(A.parent(n), ast.Assign) and len(A.parent(n).targets) == 1]
@@ -443,7 +534,7 @@ def resolve_bound(fn, expr, seen=()):
         if vals and len(vals) == len(stores):
             out = set()
             for v in vals:
-                out |= resolve_bound(fn, v, seen + (expr.id,))
+                out |= resolve_bound(fn, v, seen + (expr.id,), ctor)
             return out
     return {"?" + s}
 
@@ -451,12 +542,11 @@ def resolve_bound(fn, expr, seen=()):
 def check_negative_slice(ctx, fa):
     rule = "C02-d"
     fn = ctx.tree.func("lena.flow.iterators", "Slice._run_negative_islice")
-    # start/stop are the constructor's values
-    unpack = [st for st in fn.body if isinstance(st, ast.Assign) and "self._start" in A.src(st.value)]
-    ctx.check(rule, any(A.src(st).replace(" ", "") in ("start,stop,step=(self._start,self._stop,self._step)",
-                                                        "start,stop,step=self._start,self._stop,self._step") for st in unpack),
-              fn, "Slice._run_negative_islice does not take start/stop from the constructor's values", detail="start, stop, step = "
-              "self._start, self._stop, self._step", construct="unpack")
+    # start/stop are the constructor's values: the locals bound (once, at the top of the body) from self._start,
+    # self._stop, self._step -- identified by what they are bound from, not by what they are called
+    ctor = ctor_locals(fn)
+    ctx.check(rule, {"start", "stop"} <= set(ctor.values()), fn, "Slice._run_negative_islice does not take start/stop from the "
+              "constructor's values", detail="start, stop, step = self._start, self._stop, self._step", construct="unpack")
     deques = [c for c in ast.walk(fn) if isinstance(c, ast.Call) and A.call_name(c) == "deque"]
     for c in deques:
         ml = A.kwarg(c, "maxlen")
@@ -466,11 +556,11 @@ def check_negative_slice(ctx, fa):
             ctx.violation(rule, c, "negative Slice creates `%s` without maxlen: it keeps every value it is given instead of the |index| "
                           "values the documentation promises" % A.short(c, 50), construct="deque-unbounded:%s" % A.short(c, 60))
             continue
-        bounds = resolve_bound(fn, ml)
+        bounds = resolve_bound(fn, ml, ctor=ctor)
         unknown = sorted(b for b in bounds if b.startswith("?"))
         ctx.check(rule, not unknown, c, "negative Slice bounds `%s` by `%s`, which is not -start/-stop (%s): more (or fewer) values than "
                   "the documented |index| are kept alive" % (A.short(c, 50), A.src(ml), ", ".join(unknown)),
-                  detail="deque bounded by %s" % "/".join(sorted(bounds)), construct="deque-bound:%s" % A.src(ml))
+                  detail="deque bounded by %s" % "/".join(sorted(bounds)), construct="deque-bound:%s" % A.src_with(ml, ctor))
     ctx.instances_floor(rule, len(deques), 4, "deque constructions in the negative Slice")
     uses = fa.uses(fn, ["flow"])
     loops = pull_loops(uses)
@@ -485,7 +575,7 @@ def check_negative_slice(ctx, fa):
             n_bad += 1
             ctx.unknown(rule, u.node, "Slice._run_negative_islice: %s (%s)" % (u.detail, desc))
         elif u.kind == "drain":
-            b = resolve_bound(fn, u.bound) if u.bound is not None else {"?none"}
+            b = resolve_bound(fn, u.bound, ctor=ctor) if u.bound is not None else {"?none"}
             if any(x.startswith("?") for x in b):
                 n_bad += 1
                 ctx.violation(rule, u.node, "negative Slice drains the flow into `%s`, whose bound is not -start/-stop" % desc,
@@ -650,10 +740,24 @@ def check_vocabulary(ctx, fa, analysed):
     ctx.instances_floor(rule, n, 5, "callables of the streaming vocabulary")
     # Run.__init__ picks _call_run for callables
     init = ctx.tree.func("lena.core.adapters", "Run.__init__")
+    # the run method looked up on the element: getattr(el, "run", None) itself or the locals bound only from it
+    lookup = "getattr(el, 'run', None)"
+    run_locals = {st.targets[0].id for st in A.walk_local(init, include_self=False)
+                  if isinstance(st, ast.Assign) and len(st.targets) == 1 and isinstance(st.targets[0], ast.Name)
+                  and A.src(st.value) == lookup}
+    run_locals = {nm for nm in run_locals if nm not in A.func_params(init) and A.single_def(init, nm) is not None
+                  and sum(1 for n in A.walk_local(init, include_self=False)
+                          if isinstance(n, ast.Name) and n.id == nm and isinstance(n.ctx, (ast.Store, ast.Del))) == 1}
+
+    def no_run_method(t, pol):
+        """literal `not callable(<the looked-up run method>)`"""
+        return (not pol) and isinstance(t, ast.Call) and ctx.res.canon(t.func) == "builtins.callable" and len(t.args) == 1 \
+            and not t.keywords and ((isinstance(t.args[0], ast.Name) and t.args[0].id in run_locals) or A.src(t.args[0]) == lookup)
+
     ok = False
     for p in P.paths_of(init):
         lits = p.literal_srcs()
-        if "callable(el)" in lits and p.end != "raise" and "run is _SENTINEL" in lits and "not callable(run_)" in lits:
+        if "callable(el)" in lits and p.end != "raise" and "run is _SENTINEL" in lits and any(no_run_method(t, pol) for t, pol in p.literals()):
             ok = any(isinstance(s, ast.Assign) and A.src(s) == "self.run = self._call_run" for s in p.stmts())
     ctx.check(rule, ok, init, "Run.__init__ does not drive a plain callable with the streaming generator _call_run",
               detail="callable without run => self.run = self._call_run", construct="run-callable")
